@@ -9,3 +9,13 @@ def fix_deprecated_part(rep, tier, sd):
         rep.cov["fix_deprecated"] = "not built yet"
         return
     ws_deprecated.run(rep, tier, sd)
+
+
+def clean_part(rep, tier, sd):
+    """C19, command half (jobs clean / orphans on real workspaces) -- filled in by the workspace engine"""
+    try:
+        from . import ws_commands
+    except ImportError:
+        rep.cov["commands"] = "not built yet"
+        return
+    ws_commands.run_c19(rep, tier, sd)
